@@ -15,7 +15,7 @@ ASSUME FIRST \subseteq Ops
 ViewJ(v) == [ status |-> v.status, msg |-> v.msg, cookie |-> v.cookie, ctype |-> v.ctype,
               xa |-> v.xa, xaWhere |-> v.xaWhere, bodies |-> SetToSeq(v.bodies),
               mismatch |-> v.mismatch, declared |-> v.declared, mustClose |-> v.mustClose,
-              frame |-> v.frame ]
+              frame |-> v.frame, streamFinal |-> v.streamFinal ]
 
 Vec(p) == LET R == Run(p, InitR) IN
   [ prog |-> p, get |-> ViewJ(PeerView(R, FALSE)), head |-> ViewJ(PeerView(R, TRUE)),
